@@ -97,6 +97,7 @@ static std::vector<Tok> valid_values(Scn const &sc, Cmd const &c, int slot, int 
     static const char *F[3][2] = {{"0.25", "0.1 0.2 0.3"}, {"0.25", "0.1 0.2 0.3 0.4"}, {"0.25", "0.1 0.2 0.3 0.4 0.5 0.6"}};
     int si = sc.id == "A" ? 0 : (sc.id == "B" ? 1 : 2);
     add("force", F[si][obj > 0 ? 1 : 0]);
+    add("force-with-more-numbers-than-the-variable-has-components", "0.1 0.2 0.3 0.4 0.5 0.6 0.7 0.8");
   }
   else if (n == "flags") { add("on", "1"); add("off", "0"); }
   else if (n == "confs") { add("skip", "\"\""); add("coeff", "\"componentCoeff 2.0\""); }
